@@ -101,6 +101,47 @@ func checkC10(tier string) int {
 			}
 			r.Count("histories_with_a_validator_gone_dark", 1)
 		}
+		if cfg.ExtraPlan == nil {
+			// a candidate is elected in one block and falls below the minimum again in the next, before it has
+			// appeared in any last-commit list
+			wq, _ := world.New(params)
+			var flick *world.Validator
+			for _, v := range wq.Vals {
+				if !v.InGenesis {
+					flick = v
+				}
+			}
+			cfg.ExtraPlan = func(c *gen.Ctx) []hist.TxSpec {
+				if flick == nil {
+					return nil
+				}
+				min := mon.StakingOptions(c.S).Min()
+				cur := gen.StakeOf(c.S, flick.ValAddr).Int64()
+				switch c.H {
+				case 22, 38:
+					if cur < min {
+						// (above the weakest elected validator when all seats are taken)
+						target := min
+						if el, _ := mon.Election(c.S); int64(len(el)) >= mon.StakingOptions(c.S).TopValidatorCount {
+							for _, p := range el {
+								if target == min || p < target {
+									target = p
+								}
+							}
+						}
+						if target < min {
+							target = min
+						}
+						return []hist.TxSpec{gen.Build(c, "STAKE", gen.StakeMsg(flick, fmt.Sprint(target-cur+40)), "a candidate stakes in just above the line (and drops below the minimum in the next block)", &flick.Stake, gen.ConsAccount(flick))}
+					}
+				case 23, 39:
+					if cur >= min {
+						return []hist.TxSpec{gen.Build(c, "UNSTAKE", &staking.Unstake{ValidatorAddress: flick.ValAddr, StakeAddress: flick.Stake.Addr, Stake: txb.Amt("OLT", fmt.Sprint(cur-min+1))}, "the candidate elected in the previous block unstakes to just below the minimum", &flick.Stake, gen.ConsAccount(flick))}
+					}
+				}
+				return nil
+			}
+		}
 		quiet := 0
 		var lastSet string
 		cfg.FilterPlan = func(c *gen.Ctx, specs []hist.TxSpec) []hist.TxSpec {
